@@ -22,6 +22,7 @@ static void make_matrix(const vcase *c, const vf_type *T, dmat *A, int symmetric
         int a = symmetric ? (i >= j ? i : j) : i, b = symmetric ? (i >= j ? j : i) : j;
         double re = VALS16[(a * 3 + b * 5 + c->vals) % 6], im = VALS16[(a * 5 + b * 7 + c->vals + 2) % 6];
         if (c->k == 4) { re = (double)((a * 3 + b) % 9 + 1) * 0.125; im = -(double)((a + b * 2) % 5 + 1) * 0.5; }       /* values exactly representable with F10.3 */
+        if (c->vals == 3 && (a + 2 * b) % 3 == 1) re = im = 0.0;      /* stored entries whose value is exactly zero: still entries of the file */
         DM(A, i, j) = T->cplx ? (xc)(re + im * I) : (xc)re; DZ(A, i, j) = 1;
     }
 }
@@ -120,10 +121,10 @@ static void write_coord(sbuf *s, const vf_type *T, const dmat *A, int symmetric,
  * k: value format index (HB/RB) ; aux2: ptr/ind format ; aux3: symmetric ; rhs: with rhs block / comments / zero-based ; permid: entry order */
 static void pat_small(int idx, vcase *c) { if (idx < N_ALL123) all123(idx, &c->n, &c->pat); else { int q = idx - N_ALL123; c->n = 5; c->pat = dev1_pattern(5, base_pattern(5, q / 26), q % 26); } c->m = c->n; }
 #define NPAT (N_ALL123 + 9 * 26)
-static void s_hb(const int *d, vcase *c) { pat_small(d[0], c); c->aux = d[1]; c->k = d[2]; c->aux2 = d[3]; c->aux3 = d[4]; c->rhs = d[5]; c->type = d[6]; c->vals = d[0] % 3; }
-static void s_mm(const int *d, vcase *c) { pat_small(d[0], c); c->aux = 2; c->aux3 = d[1]; c->rhs = d[2]; c->permid = d[3]; c->type = d[4]; c->vals = d[0] % 3; }
-static void s_tr(const int *d, vcase *c) { pat_small(d[0], c); c->aux = 3; c->rhs = d[1]; c->permid = d[2]; c->type = d[3]; c->vals = d[0] % 3; }
-static void s_trn(const int *d, vcase *c) { pat_small(d[0], c); c->aux = 4; c->rhs = d[1]; c->permid = d[2]; c->type = TD; c->vals = d[0] % 3; }
+static void s_hb(const int *d, vcase *c) { pat_small(d[0], c); c->aux = d[1]; c->k = d[2]; c->aux2 = d[3]; c->aux3 = d[4]; c->rhs = d[5]; c->type = d[6]; c->vals = d[0] % 4; }
+static void s_mm(const int *d, vcase *c) { pat_small(d[0], c); c->aux = 2; c->aux3 = d[1]; c->rhs = d[2]; c->permid = d[3]; c->type = d[4]; c->vals = d[0] % 4; }
+static void s_tr(const int *d, vcase *c) { pat_small(d[0], c); c->aux = 3; c->rhs = d[1]; c->permid = d[2]; c->type = d[3]; c->vals = d[0] % 4; }
+static void s_trn(const int *d, vcase *c) { pat_small(d[0], c); c->aux = 4; c->rhs = d[1]; c->permid = d[2]; c->type = TD; c->vals = d[0] % 4; }
 static const family F16[] = {
     { "HB/RB: (ALL(1..3) + DEV_1(BASE(5))) x {HB,RB} x 6 value formats x 4 integer formats x {general, symmetric, symmetric with descending rows, general with descending rows} x {no rhs, rhs block} x type4", 7, { NPAT, 2, 6, 4, 4, 2, 4 }, s_hb },
     { "Matrix Market: patterns x {general, symmetric} x {plain, comment lines, comment lines + blank line} x 24 entry orders x type4", 5, { NPAT, 2, 3, 24, 4 }, s_mm },
